@@ -357,6 +357,31 @@ Qed.
 Lemma c20_wf_npv_inplace : forall st cs vals, c20_wf st -> c20_wf (fst (c20_npv_inplace st cs vals)).
 Proof. intros. unfold c20_npv_inplace. simpl. apply c20_wf_set_heap; auto. apply c20_write_all_length. Qed.
 
+Lemma c20_wf_on_arr2 : forall st r s f, c20_wf st ->
+  (forall o y, In o (c20_regs st) -> c20_obj_ok (c20_H st) o -> c20_wf (fst (f o y))) -> c20_wf (fst (c20_on_arr2 st r s f)).
+Proof.
+  intros st r s f Hwf Hf. unfold c20_on_arr2. destruct (nth_error (c20_regs st) r) eqn:E; simpl; auto.
+  destruct (nth_error (c20_regs st) s); simpl; auto. destruct (c20_k c); simpl; auto.
+  destruct (c20_np_operand (c20_size c) (c20_vals st c0)); simpl; auto.
+  apply nth_error_In in E. apply Hf; auto. unfold c20_wf in Hwf. rewrite Forall_forall in Hwf. auto.
+Qed.
+
+Lemma c20_wf_on_arr : forall st r f, c20_wf st ->
+  (forall o, In o (c20_regs st) -> c20_obj_ok (c20_H st) o -> c20_wf (fst (f o))) -> c20_wf (fst (c20_on_arr st r f)).
+Proof.
+  intros st r f Hwf Hf. unfold c20_on_arr. destruct (nth_error (c20_regs st) r) eqn:E; simpl; auto.
+  destruct (c20_k c); simpl; auto.
+  apply nth_error_In in E. apply Hf; auto. unfold c20_wf in Hwf. rewrite Forall_forall in Hwf. auto.
+Qed.
+
+Lemma c20_wf_arradd : forall st r s, c20_wf st -> c20_wf (fst (c20_arradd st r s)).
+Proof.
+  intros st r s Hwf. unfold c20_arradd.
+  destruct (nth_error (c20_regs st) r); simpl; auto. destruct (nth_error (c20_regs st) s); simpl; auto.
+  destruct (c20_k c); simpl; auto. destruct (c20_np_operand (c20_size c) (c20_vals st c0)); [now apply c20_wf_push_new|].
+  destruct (Nat.eqb (c20_size c) 1); [now apply c20_wf_push_new|assumption].
+Qed.
+
 Lemma c20_wf_setslice : forall st o a b c vals, c20_wf st -> c20_wf (fst (c20_setslice st o a b c vals)).
 Proof.
   intros. unfold c20_setslice. destruct (c20_slice_indices (c20_size o) a b c); simpl; auto.
@@ -397,11 +422,15 @@ Proof.
   destruct op; simpl;
     try (apply c20_wf_push_new; assumption);
     try match goal with
+      | |- context [c20_on_arr2] => apply c20_wf_on_arr2; [assumption | intros o y Ho Hok]
+      | |- context [c20_on_arr] => apply c20_wf_on_arr; [assumption | intros o Ho Hok]
       | |- context [c20_on_npv] => apply c20_wf_on_npv; [assumption | intros cs]
       | |- context [c20_on_vec] => apply c20_wf_on_vec; [assumption | intros o Ho Hok]
       | |- context [c20_on_any] => apply c20_wf_on_any; [assumption | intros o Ho Hok]
       end;
     try (apply c20_wf_with_operand; [assumption | intros y]);
+    try match goal with |- context [nth_error (c20_regs st) ?s] => destruct (nth_error (c20_regs st) s); simpl; auto end;
+    try (apply c20_wf_arradd; assumption);
     try (apply c20_wf_setslice; assumption);
     try match goal with
       | |- context [c20_slice_indices ?n ?a ?b ?c] =>
@@ -1067,11 +1096,12 @@ Proof.
        c20_regs st' = c20_regs st ++ [{| c20_k := k; c20_cells := map (fun j => nth j (c20_cells o) 0) idx |}]))
     by (intros k vals; right; left; exists k, vals; reflexivity).
   destruct op; simpl; try (apply Hnew);
-    unfold c20_on_vec, c20_on_any, c20_on_npv, c20_with_operand, c20_setslice, c20_npv_inplace, c20_inplace;
+    unfold c20_on_vec, c20_on_any, c20_on_npv, c20_on_arr2, c20_on_arr, c20_arradd, c20_with_operand, c20_setslice, c20_npv_inplace, c20_inplace;
     repeat match goal with
       | |- context [nth_error (c20_regs st) ?r] => let E := fresh "E" in destruct (nth_error (c20_regs st) r) eqn:E; simpl; auto
       | |- context [match c20_k ?o with _ => _ end] => destruct (c20_k o); simpl; auto
       | |- context [c20_operand ?a ?b ?c] => destruct (c20_operand a b c); simpl; auto
+      | |- context [c20_np_operand ?a ?b] => destruct (c20_np_operand a b); simpl; auto
       | |- context [c20_npv_cells ?a ?b ?c] => destruct (c20_npv_cells a b c); simpl; auto
       | |- context [c20_construct_buffer ?a ?b ?c ?d ?e] => destruct (c20_construct_buffer a b c d e); simpl; auto
       | |- context [c20_iter_loop ?a ?b ?c ?d ?e] => destruct (c20_iter_loop a b c d e); simpl; auto
@@ -1140,11 +1170,12 @@ Lemma c20_heap_step_cases : forall cfg st op, c20_mutating op = false ->
 Proof.
   intros cfg st op Hm.
   destruct op; try discriminate Hm; simpl;
-    unfold c20_on_vec, c20_on_any, c20_on_npv, c20_with_operand, c20_push_new, c20_push_shared, c20_alloc;
+    unfold c20_on_vec, c20_on_any, c20_on_npv, c20_on_arr2, c20_on_arr, c20_arradd, c20_with_operand, c20_push_new, c20_push_shared, c20_alloc;
     repeat match goal with
       | |- context [nth_error (c20_regs st) ?r] => destruct (nth_error (c20_regs st) r); simpl; auto
       | |- context [match c20_k ?o with _ => _ end] => destruct (c20_k o); simpl; auto
       | |- context [c20_operand ?a ?b ?c] => destruct (c20_operand a b c); simpl; auto
+      | |- context [c20_np_operand ?a ?b] => destruct (c20_np_operand a b); simpl; auto
       | |- context [c20_npv_cells ?a ?b ?c] => destruct (c20_npv_cells a b c); simpl; auto
       | |- context [c20_construct_buffer ?a ?b ?c ?d ?e] => destruct (c20_construct_buffer a b c d e); simpl; auto
       | |- context [c20_iter_loop ?a ?b ?c ?d ?e] => destruct (c20_iter_loop a b c d e); simpl; auto
@@ -1189,10 +1220,12 @@ Proof.
   pose proof (P_npv_cells_fixed cfg (c20_H st) (c20_cells o) Hc Hso Hr) as Hnpv.
   unfold c20_step_reg.
   destruct op; try discriminate Ht; injection Ht as ->; simpl;
-    unfold c20_on_vec, c20_on_any, c20_on_npv, c20_with_operand, c20_setslice, c20_npv_inplace, c20_inplace;
+    unfold c20_on_vec, c20_on_any, c20_on_npv, c20_on_arr2, c20_on_arr, c20_arradd, c20_with_operand, c20_setslice, c20_npv_inplace, c20_inplace;
     rewrite E, ?Hnpv;
     repeat match goal with
+      | |- context [nth_error (c20_regs st) ?s] => destruct (nth_error (c20_regs st) s); simpl
       | |- context [match c20_k ?o with _ => _ end] => destruct (c20_k o); simpl
+      | |- context [c20_np_operand ?a ?b] => destruct (c20_np_operand a b); simpl
       | |- context [c20_operand ?a ?b ?c] => destruct (c20_operand a b c); simpl
       | |- context [c20_setitem_index ?c ?k ?n ?i] => let Ei := fresh "Ei" in destruct (c20_setitem_index c k n i) eqn:Ei; simpl
       | |- context [c20_slice_indices ?n ?x ?y ?z] => let Ei := fresh "Ei" in destruct (c20_slice_indices n x y z) eqn:Ei; simpl
@@ -1388,4 +1421,58 @@ Lemma P_inf_norm_bound : forall (a : list Q) x, In x a -> (Qabs.Qabs x <= c20_in
 Proof.
   intros a x Hx. destruct (c20_inf_norm_gen a 0%Q) as [_ H]. specialize (H x Hx).
   destruct (P_arith_exact x 0) as [_ [_ [_ [_ E]]]]. rewrite <- E. exact H.
+Qed.
+
+(* ------------------------------------------------------------------ cross-cutting audit: views as receivers, aliasing operands *)
+(* a NumPy view as receiver / left operand: NumPy broadcasting of the operand (equal length or one entry), the operand is read
+   before anything is written (it may be the receiver itself or overlap it), the receiver's cells are overwritten in place *)
+Lemma P_arr_ops : forall cfg st r s o p, nth_error (c20_regs st) r = Some o -> c20_k o = C20_Arr -> nth_error (c20_regs st) s = Some p ->
+  (forall y, c20_np_operand (c20_size o) (c20_vals st p) = C20_Ok y ->
+     c20_step cfg st (C20_ArrIAdd r s) = c20_inplace st o (c20_vadd (c20_vals st o) y) /\
+     c20_step cfg st (C20_ArrISub r s) = c20_inplace st o (c20_vsub (c20_vals st o) y) /\
+     c20_step cfg st (C20_ArrAdd r s) = c20_push_new st C20_Arr (c20_vadd (c20_vals st o) y)) /\
+  (forall e, c20_np_operand (c20_size o) (c20_vals st p) = C20_Exc e ->
+     c20_step cfg st (C20_ArrIAdd r s) = (st, C20_ObsExc e) /\
+     (c20_size o <> 1%nat -> c20_step cfg st (C20_ArrAdd r s) = (st, C20_ObsExc e)) /\
+     (c20_size o = 1%nat -> c20_step cfg st (C20_ArrAdd r s) =
+        c20_push_new st C20_Arr (c20_vadd (repeat (nth 0 (c20_vals st o) 0%Q) (c20_size p)) (c20_vals st p)))) /\
+  (forall q, c20_step cfg st (C20_ArrIMulS r q) = c20_inplace st o (c20_vscale q (c20_vals st o)) /\
+             c20_step cfg st (C20_ArrIAddS r q) = c20_inplace st o (c20_vadds q (c20_vals st o))) /\
+  (forall a b c, c20_step cfg st (C20_SetSliceFrom r a b c s) = c20_step cfg st (C20_SetSlice r a b c (c20_vals st p))) /\
+  c20_step cfg st (C20_Drop r) = (st, C20_ObsNone).
+Proof.
+  intros cfg st r s o p Er Hk Es. repeat split; intros; simpl; unfold c20_on_arr2, c20_on_arr, c20_arradd, c20_on_any; rewrite ?Er, ?Es, ?Hk, ?H; try reflexivity.
+  - destruct (Nat.eqb_spec (c20_size o) 1); [contradiction|reflexivity].
+  - rewrite H0. reflexivity.
+Qed.
+
+Lemma P_np_operand : forall n vals,
+  (length vals = n -> c20_np_operand n vals = C20_Ok vals) /\
+  (length vals = 1 -> n <> 1 -> c20_np_operand n vals = C20_Ok (repeat (nth 0 vals 0%Q) n)) /\
+  (length vals <> n -> length vals <> 1 -> c20_np_operand n vals = C20_Exc C20_ValueError) /\
+  (forall y, c20_np_operand n vals = C20_Ok y -> length y = n).
+Proof.
+  intros n vals. unfold c20_np_operand. repeat split.
+  - intros H. now rewrite H, Nat.eqb_refl.
+  - intros H1 Hn. rewrite H1. destruct (Nat.eqb_spec 1 n); [congruence|reflexivity].
+  - intros H1 H2. destruct (Nat.eqb_spec (length vals) n); [contradiction|]. destruct (Nat.eqb_spec (length vals) 1); [contradiction|reflexivity].
+  - intros y. destruct (Nat.eqb_spec (length vals) n); [intros [= <-]; assumption|].
+    destruct (Nat.eqb_spec (length vals) 1); [intros [= <-]; apply repeat_length|discriminate].
+Qed.
+
+(* self-aliasing: the operand is the receiver itself (v += v, v -= v, v.assign(v), v * v, v == v): the entries are read first *)
+Lemma P_self_alias : forall cfg st r o, nth_error (c20_regs st) r = Some o -> c20_k o = C20_Vec ->
+  c20_step cfg st (C20_IAdd r r) = c20_inplace st o (c20_vadd (c20_vals st o) (c20_vals st o)) /\
+  c20_step cfg st (C20_ISub r r) = c20_inplace st o (c20_vsub (c20_vals st o) (c20_vals st o)) /\
+  c20_step cfg st (C20_Assign r r) = c20_inplace st o (c20_vals st o) /\
+  c20_step cfg st (C20_Dot r r) = (st, C20_ObsScalar (c20_two_norm2 (c20_vals st o))) /\
+  c20_step cfg st (C20_Eq r r) = (st, C20_ObsBool (c20_veq (c20_vals st o) (c20_vals st o))).
+Proof.
+  intros cfg st r o E Hk.
+  assert (Hc : c20_spec_construct (c20_size o) (c20_vals st o) = c20_vals st o).
+  { unfold c20_spec_construct, c20_vals, c20_size. rewrite c20_read_all_length, Nat.sub_diag, firstn_all2 by (rewrite c20_read_all_length; lia).
+    simpl. apply app_nil_r. }
+  destruct (P_ops_inplace cfg st r r o o E Hk E) as [H1 [H2 [H3 _]]].
+  destruct (P_ops_scalar cfg st r r o o E Hk E) as [H4 [H5 _]].
+  rewrite Hc in *. rewrite P_two_norm2_dot. auto.
 Qed.
